@@ -116,3 +116,120 @@ func parseJSONReport(line []byte) (*vegeta.Metrics, error) {
 	m.StatusCodes, m.Errors = j.StatusCodes, errs
 	return m, nil
 }
+
+// flattenJSON lists the members of a JSON report in DOCUMENT order as `path=value` (nested objects as
+// dotted paths, the status-code map and the error array with their elements in order; an optional
+// "buckets" member is skipped). Floats as bit patterns, instants as ns since the epoch.
+func flattenJSON(line []byte) (string, error) {
+	dec := json.NewDecoder(bytes.NewReader(line))
+	dec.UseNumber()
+	var out []string
+	floats := map[string]bool{"bytes_in.mean": true, "bytes_out.mean": true, "rate": true, "throughput": true, "success": true}
+	times := map[string]bool{"earliest": true, "latest": true, "end": true}
+	if t, err := dec.Token(); err != nil || t != json.Delim('{') {
+		return "", fmt.Errorf("not an object")
+	}
+	var walk func(prefix string) error
+	walk = func(prefix string) error {
+		for dec.More() {
+			kt, err := dec.Token()
+			if err != nil {
+				return err
+			}
+			key, ok := kt.(string)
+			if !ok {
+				return fmt.Errorf("member name expected")
+			}
+			path := prefix + key
+			switch path {
+			case "buckets":
+				var skip json.RawMessage
+				if err := dec.Decode(&skip); err != nil {
+					return err
+				}
+			case "latencies", "bytes_in", "bytes_out":
+				if t, err := dec.Token(); err != nil || t != json.Delim('{') {
+					return fmt.Errorf("%s is not an object", path)
+				}
+				if err := walk(path + "."); err != nil {
+					return err
+				}
+				if _, err := dec.Token(); err != nil {
+					return err
+				}
+			case "status_codes":
+				if t, err := dec.Token(); err != nil || t != json.Delim('{') {
+					return fmt.Errorf("status_codes is not an object")
+				}
+				var parts []string
+				for dec.More() {
+					k, err := dec.Token()
+					if err != nil {
+						return err
+					}
+					var v json.Number
+					if err := dec.Decode(&v); err != nil {
+						return err
+					}
+					parts = append(parts, fmt.Sprintf("%v:%s", k, v))
+				}
+				dec.Token()
+				out = append(out, fmt.Sprintf("status_codes=%d%s", len(parts), prefixed(parts)))
+			case "errors":
+				var es []string
+				if err := dec.Decode(&es); err != nil {
+					return err
+				}
+				parts := make([]string, len(es))
+				for i, e := range es {
+					parts[i] = hexOf(e)
+				}
+				out = append(out, fmt.Sprintf("errors=%d%s", len(parts), prefixed(parts)))
+			default:
+				switch {
+				case times[path]:
+					var t time.Time
+					if err := dec.Decode(&t); err != nil {
+						return err
+					}
+					out = append(out, path+"="+tns(t))
+				case floats[path]:
+					var n json.Number
+					if err := dec.Decode(&n); err != nil {
+						return err
+					}
+					f, err := n.Float64()
+					if err != nil {
+						return err
+					}
+					out = append(out, path+"="+fbits(f))
+				default:
+					var n json.Number
+					if err := dec.Decode(&n); err != nil {
+						return err
+					}
+					out = append(out, path+"="+n.String())
+				}
+			}
+		}
+		return nil
+	}
+	if err := walk(""); err != nil {
+		return "", err
+	}
+	return "ok " + strings.Join(out, " "), nil
+}
+
+func prefixed(parts []string) string {
+	if len(parts) == 0 {
+		return ""
+	}
+	return "," + strings.Join(parts, ",")
+}
+
+func hexOf(s string) string {
+	if s == "" {
+		return "-"
+	}
+	return fmt.Sprintf("%x", s)
+}
